@@ -61,7 +61,6 @@ var dimsB = []dimension{
 		{"grpc-simple", false, anno("inject.istio.io/templates", "grpc-simple")},
 		{"grpc-agent", false, anno("inject.istio.io/templates", "grpc-agent")},
 		{"sidecar", true, anno("inject.istio.io/templates", "sidecar")},
-		{"sidecar,grpc-simple", true, anno("inject.istio.io/templates", "sidecar,grpc-simple")},
 	}},
 	{"containers", []option{
 		{"1", false, nop},
@@ -320,6 +319,8 @@ func (r *runnerB) inject(podJSON []byte) (out []byte, ops int, failure string) {
 	switch {
 	case err != nil:
 		return nil, 0, err.Error()
+	case a.Panic != "":
+		return nil, 0, a.Panic
 	case a.HTTPStatus != 200:
 		return nil, 0, fmt.Sprintf("HTTP %d %s", a.HTTPStatus, a.Message)
 	case !a.Allowed || a.Message != "":
@@ -335,6 +336,12 @@ func (r *runnerB) inject(podJSON []byte) (out []byte, ops int, failure string) {
 }
 
 func errClass(msg string) string {
+	if strings.HasPrefix(msg, "panic: ") {
+		if i := strings.LastIndex(msg, " at "); i > 0 {
+			return "panic at" + msg[i+3:]
+		}
+		return msg
+	}
 	if i := strings.Index(msg, ":"); i > 0 && i < 60 {
 		msg = msg[:i]
 	}
@@ -357,7 +364,7 @@ func (r *runnerB) check(res *engine.Result, c caseB, recheck, verbose bool) {
 	out1, ops1, fail := r.inject(in)
 	if fail != "" {
 		res.Outcome("first injection failed")
-		res.Violate(fmt.Sprintf("inject-error template=%s first: %s", tpl, errClass(fail)), fmt.Sprintf("first injection failed: %s; case: %s", fail, c), c)
+		res.Violate("inject-error first: "+errClass(fail), fmt.Sprintf("first injection (template %s) failed: %s; case: %s", tpl, fail, c), c)
 		return
 	}
 	if recheck {
@@ -400,7 +407,7 @@ func (r *runnerB) check(res *engine.Result, c caseB, recheck, verbose bool) {
 	out2, ops2, fail := r.inject(out1)
 	if fail != "" {
 		res.Outcome("re-injection failed")
-		res.Violate(fmt.Sprintf("inject-error template=%s second: %s", tpl, errClass(fail)), fmt.Sprintf("injecting the injected pod failed: %s; case: %s", fail, c), c)
+		res.Violate("inject-error second: "+errClass(fail), fmt.Sprintf("injecting the injected pod (template %s) failed: %s; case: %s", tpl, fail, c), c)
 		return
 	}
 	res.Count("re-injections", 1)
